@@ -2,7 +2,10 @@ CONFIG = {
     "rule": "cases = (a) generated programs `def f(): <body>; r = f()` over the statement fragment {if/elif/else, while(+else), for(+else) over a probe iterator, "
             "break, continue, return, raise C / raise C(k) / raise C from D / raise <int> / bare raise, try/except (1-2 handlers, builtin classes, tuples, `as e`), try/finally, try/except/else/finally, with (probe context manager), pass, probe calls ev(i)}: "
             "every nesting of 30 one-hole contexts (6 of them handler-in-handler / finally-in-handler shapes ending in a bare raise or catching an exception that passed through finally / with / a raising handler) to depth 2 x 19 leaves "
-            "(which probe raises which class / returns / breaks / continues / re-raises / falls through), depth 3: 1500 uniform + 4500 samples weighted towards handler and finally contexts (quick) or complete (thorough); "
+            "(which probe raises which class / returns / breaks / continues / re-raises / yields / falls through), depth 3: 1500 uniform + 4500 samples weighted towards handler and finally contexts (quick) or complete (thorough); "
+            "COMPOSITE family `c<d>:outer/park/P|FIN`: 4 outer contexts (function body, for+else, while+else, generator already resumed once + for) x 10 park contexts (1-2 try/finally / with / try-except-finally statements being left, which of them owns the finally body) "
+            "x 6 parked leaves P (return, continue, break, raise, yield, fall-through) x finally bodies FIN = 8 leaves (ok, continue, break, return, raise, yield, handled exception, probe raising on its 2nd call) under d = 0, 1 (complete: 32 640 programs) or 2 (7000 seeded samples in quick; complete for 4 park contexts in thorough) "
+            "of 16 one-hole contexts (for / for+else / for-else part, while likewise, try/finally body and finally part, try/except body / handler / named handler / else, with (plain, suppressing, __exit__ running a Python loop), if); a function containing a yield is a generator driven by the harness builtin drive(); "
             "per program three ties: decoded bytecode of f == Model.compS, hook-H2 instruction trace (pc, stack depth, block kinds/levels/handlers) == Model.step trace, "
             "path log + result / exception class + traceback (function, line) == Spec.execT;  (b) ExceptionGivenMatches on all pairs of 12 builtin classes and on tuples;  "
             "(c) Lnotab()/Addr2Line on instruction streams with line/byte gaps > 255.  "
@@ -20,15 +23,33 @@ CONFIG = {
         "proved for all inputs (Props.lean): unwind_spec (incl. the handled exception restored by every popped EXCEPT_HANDLER block), unwind_exits_unchanged, finally_preserves_reason, handled_exception_restored_unwind, exc_match_iff_ancestor, builtin_ancestors_spec, addr2line_lnotab, lnotab_bytes, traceback_line (+ traceback_line_old_witness), "
         "compS_correct (whole statement fragment incl. try/finally, try/except, with, bare raise and the handled-exception state vm.exc), handled_exception_restored, bare_raise_reraises_handled, frame_correct, no_exception_lost, finally_runs_once, exit_called_once, handler_first_match, exc_match_iff_ancestor_c3 (multiple inheritance, over the C3 tables of C16: imports GPy.C16.Props), traceback_chain, module_frame, traceback_names_every_call; "
         "the link Lean model <-> Go code is the correspondence run (bytecode, H2 trace, end-to-end), not a proof",
-        "exception chaining (__context__/__cause__ are not observed: `raise C from D` is checked for the class and traceback it raises only), sys.exc_info, generators (whyYield) and iterators that raise (C05) are outside the fragment",
+        "exception chaining (__context__/__cause__ are not observed: `raise C from D` is checked for the class and traceback it raises only), sys.exc_info and iterators that raise (C05) are outside the fragment",
+        "generators: `yield ev(i)` as an expression statement only (YIELD_VALUE; POP_TOP); the consumer always resumes with next() (sends None) until exhaustion - send(value), throw(), close() and `yield from` belong to C05; the model glues 'yield, hand the value to the consumer, be resumed in a fresh Vm' into one transition (Model.resumeGen)",
+        "register fact table: extract/c02regs (go/ast) regenerates lean/GPy/C02/Generated.lean from vm/eval.go on every run; theorem regfacts_pinned (by decide) compares it with the model's table, modelRegFacts_sound ties that table to exec/unwind1/frameExit for all states; the syntactic region finder itself (which if/case of eval.go is which region) is trusted",
         "the handled exception is modelled per frame (vm.exc is a field of the Vm value RunFrame creates): a bare `raise` in a function CALLED from a handler is outside the fragment (every generated function is called from module level, outside any handler)",
         "calling frames (`def g(): return f()` wrappers, the module-level `r = f()`) are model frames of their own (Model.wrapperCode / moduleCode run by Model.run; LOAD_NAME/STORE_NAME abstracted to their stack effect); theorems traceback_chain / traceback_names_every_call; only f's frame is traced by hook H2",
         "probe context managers and iterators do not raise themselves",
     ],
     "exhaustive": False,
     "dist_tokens": 1,
-    "group": lambda r: r["input"].split(" ")[0].rsplit("/", 1)[-1] if r["input"][:2] in ("d1", "d2", "d3", "x:") else r["input"][:2],
+    "group": lambda r: (r["input"].split(" ")[0].split(":", 1)[1].split("|")[0].rsplit("/", 1)[-1] + "|" + r["input"].split(" ")[0].rsplit("/", 1)[-1].split("|")[-1]) if (r["input"][:1] == "c" and r["input"][1:2].isdigit())
+             else (r["input"].split(" ")[0].rsplit("/", 1)[-1] if r["input"][:2] in ("d1", "d2", "d3", "x:") else r["input"][:2]),
 }
+
+
+def pre(run):
+    """regenerate lean/GPy/C02/Generated.lean (register fact table) from the working tree's vm/eval.go"""
+    import os
+    import common
+    exdir = os.path.join(common.ROOT, "extract", "c02regs")
+    os.makedirs(common.WORK, exist_ok=True)
+    binp = os.path.join(common.WORK, "c02regs")
+    rc, out = common.sh(["go", "build", "-o", binp, "."], cwd=exdir, env=common.GOENV, timeout=600)
+    if rc != 0:
+        run.cov["register_fact_table"] = "EXTRACTOR BUILD FAILED: " + out[-300:]
+        return
+    rc, out = common.sh([binp, common.REPO, os.path.join(common.LEAN, "GPy", "C02", "Generated.lean")], timeout=600)
+    run.cov["register_fact_table"] = [l[5:] for l in out.splitlines() if l.startswith("FACT ")] if rc == 0 else "EXTRACTOR FAILED: " + out[-300:]
 
 
 def extra(run):
@@ -45,9 +66,31 @@ def extra(run):
     feats = collections.Counter()
     depth = collections.Counter()
     maxtrace = 0
+    matrix = collections.defaultdict(collections.Counter)      # parked leaf -> finally-body action -> programs
+    clob = collections.defaultdict(collections.Counter)        # same, only programs that write vm.retval while a return/continue is parked
     for line in open(path):
         f = line.rstrip("\n").split("\t")
         inp, mR, sV = f[0], (f[2] if len(f) > 2 else ""), (f[3] if len(f) > 3 else "")
+        tags = f[4].split(",") if len(f) > 4 else []
+        if "clob" in tags:
+            feats["writes vm.retval (CONTINUE_LOOP/RETURN_VALUE/YIELD_VALUE) while a return/continue is parked on the value stack"] += 1
+        if "gen" in tags:
+            feats["generator function (driven by next() until exhausted)"] += 1
+        if inp.startswith("c") and inp[1:2].isdigit() and "|" in inp.split(" ")[0]:
+            lab = inp.split(" ")[0]
+            park, fin = lab.split(":", 1)[1].split("|", 1)
+            pleaf = park.split("/")[-1]
+            fparts = fin.split("/")
+            # finally-body action: its leaf, qualified by the innermost kind of construct it sits in
+            inner = fparts[-2].split(".")[0] if len(fparts) > 1 else "-"
+            inner = {"forE": "for", "forElse": "for-else", "whileE": "while", "whileElse": "while-else", "withT": "with", "withL": "with"}.get(inner, inner)
+            act = fparts[-1] + ("@" + inner if inner != "-" else "")
+            through = any(x.split(".")[0] in ("tryF", "tryE", "with", "withT", "withL") for x in fparts[:-1]) and any(x.startswith(("for", "while")) for x in fparts[:-1])
+            if fparts[-1] == "continue" and through:
+                act = "continue(CONTINUE_LOOP)@loop"
+            matrix[pleaf][act] += 1
+            if "clob" in tags:
+                clob[pleaf][act] += 1
         if inp.startswith("xm="):
             kinds["exception-match"] += 1
             outcomes["match:" + sV] += 1
@@ -59,7 +102,7 @@ def extra(run):
             continue
         kinds["program"] += 1
         label = inp.split(" ")[0]
-        parts = label.split(":", 1)[1].split("/") if ":" in label else [label]
+        parts = label.split(":", 1)[1].replace("|", "/|/").split("/") if ":" in label else [label]
         depth[label.split(":")[0]] += 1
         leaves[parts[-1]] += 1
         for c in parts[:-1]:
@@ -86,3 +129,7 @@ def extra(run):
         "features": dict(feats), "longest instruction trace": maxtrace,
     }
     run.cov["spec_error_kinds"] = dict(outcomes)
+    run.cov["parked_reason_x_finally_action"] = {k: dict(sorted(v.items())) for k, v in sorted(matrix.items())}
+    run.cov["parked_reason_x_finally_action_with_retval_clobbered"] = {k: dict(sorted(v.items())) for k, v in sorted(clob.items())}
+    acts = sorted({a for v in matrix.values() for a in v})
+    run.cov["parked_reason_x_finally_action_empty_cells"] = [f"{p} x {a}" for p in sorted(matrix) for a in acts if matrix[p][a] == 0]
